@@ -41,9 +41,7 @@ impl SegmentIter {
             IterDirection::Forward => offsets_index,
             IterDirection::Reverse => {
                 offsets.reverse();
-                if offsets_index == 0 && !offsets.is_empty() {
-                    0 // Start from first index after reversal (which is the last event)
-                } else if offsets_index < offsets.len() {
+                if offsets_index < offsets.len() {
                     offsets.len() - 1 - offsets_index
                 } else {
                     0
